@@ -65,7 +65,23 @@ type Step struct {
 	Keys  []KeyEntry `json:"keys,omitempty"`  // only meaningful with Mut != ""
 	Keys2 []KeyEntry `json:"keys2,omitempty"` // only meaningful with Mut != ""
 	From  int        `json:"from,omitempty"`  // 1 + index of the earlier call (0 = the case's first token) whose genuinely signed token is reused; 0: freshly signed
+	Ver   string     `json:"ver,omitempty"`   // prov-access / prov-hint: this call goes to the OTHER verifier of the same provider ("access" | "hint"; "" the case's own); Mut / Keys then concern the key set configured for that verifier
 	Tok   TokSpec    `json:"tok"`
+}
+
+// ProvOpts are the options of op.NewProvider that select keys / algorithms for verification (kinds prov-access, prov-hint,
+// hint-http). The access-token verifier of the provider trusts the key set configured for access tokens (AccessKS, or what
+// the storage publishes when the option is not given) and allows AccessAlgs (or the library default); the id_token_hint
+// verifier likewise with HintKS / HintAlgs - never the other one's. nil (replay files of earlier rounds, 1/6 of the generated
+// cases): the fixed option set of vkit.Build (no key-set option, both algorithm lists = the storage's signing algorithm).
+type ProvOpts struct {
+	HasAccessKS bool       `json:"has_access_ks,omitempty"` // op.WithAccessTokenKeySet(<application key set over AccessKS>)
+	AccessKS    []KeyEntry `json:"access_ks,omitempty"`
+	HasHintKS   bool       `json:"has_hint_ks,omitempty"` // op.WithIDTokenHintKeySet(<application key set over HintKS>)
+	HintKS      []KeyEntry `json:"hint_ks,omitempty"`
+	AccessAlgs  []string   `json:"access_algs,omitempty"` // op.WithAccessTokenVerifierOpts(op.WithSupportedAccessTokenSigningAlgorithms(...)); empty: option not given
+	HintAlgs    []string   `json:"hint_algs,omitempty"`   // op.WithIDTokenHintVerifierOpts(op.WithSupportedIDTokenHintSigningAlgorithms(...)); empty: option not given
+	Rev         bool       `json:"rev,omitempty"`         // options handed to op.NewProvider in reverse order
 }
 
 type Case struct {
@@ -82,6 +98,7 @@ type Case struct {
 	FK         *FindKeySpec `json:"fk,omitempty"`
 	Raw        []byte       `json:"raw,omitempty"` // native fuzz: literal serialized token ($H $P $S $E placeholders), replaces manipulations
 	Seq        []Step       `json:"seq,omitempty"` // further calls on the same verifier / key-set / provider instance
+	Prov       *ProvOpts    `json:"prov,omitempty"` // prov-access / prov-hint / hint-http: verification options of op.NewProvider; Keys stays what the storage publishes
 }
 
 // verifier kinds
@@ -96,8 +113,8 @@ const (
 	kReqObj    = "reqobj"        // op.ParseRequestObject called directly
 	kReqHTTP   = "reqobj-http"   // request object through the authorize endpoint
 	kFindKey   = "findkey"       // oidc.FindMatchingKey directly
-	kProvAcc   = "prov-access"   // op.VerifyAccessToken with Provider.AccessTokenVerifier of a provider built by op.NewProvider (its default key set)
-	kProvHint  = "prov-hint"     // op.VerifyIDTokenHint with Provider.IDTokenHintVerifier of a provider built by op.NewProvider (its default key set)
+	kProvAcc   = "prov-access"   // op.VerifyAccessToken with Provider.AccessTokenVerifier of a provider built by op.NewProvider (default or configured key set / algorithms)
+	kProvHint  = "prov-hint"     // op.VerifyIDTokenHint with Provider.IDTokenHintVerifier of a provider built by op.NewProvider (default or configured key set / algorithms)
 )
 
 var tokenKinds = []string{kRPStatic, kRPRemote, kOPAccess, kOPHint, kHintHTTP, kAssert, kAssertKS, kReqObj, kReqHTTP, kProvAcc, kProvHint}
@@ -119,9 +136,87 @@ func allowedAlgs(c Case) []string {
 		}
 		return c.Algs
 	case kHintHTTP, kProvAcc, kProvHint:
+		if c.Prov != nil {
+			l := c.Prov.HintAlgs
+			if c.Kind == kProvAcc {
+				l = c.Prov.AccessAlgs
+			}
+			if len(l) == 0 {
+				return defaultAlgs
+			}
+			return l
+		}
 		return []string{hintAlg(c)}
 	}
 	return defaultAlgs // assertions and request objects: no option, documented default
+}
+
+// ---- provider options: which key set / algorithm list is configured for which verifier ------------
+
+func isProv(kind string) bool { return kind == kHintHTTP || kind == kProvAcc || kind == kProvHint }
+
+// targetOf names the key set the verifier of `kind` is configured with: "storage" (what Storage.KeySet publishes; the
+// default), "access" / "hint" (the application's key set handed to op.WithAccessTokenKeySet / op.WithIDTokenHintKeySet).
+// Kinds without provider: "" (the one key set of the case).
+func targetOf(c Case, kind string) string {
+	if !isProv(kind) {
+		return ""
+	}
+	if c.Prov != nil {
+		if kind == kProvAcc && c.Prov.HasAccessKS {
+			return "access"
+		}
+		if kind != kProvAcc && c.Prov.HasHintKS {
+			return "hint"
+		}
+	}
+	return "storage"
+}
+
+// keySets lists the key sets of the case by target name.
+func keySets(c Case) map[string][]KeyEntry {
+	if !isProv(c.Kind) {
+		return map[string][]KeyEntry{"": c.Keys}
+	}
+	m := map[string][]KeyEntry{"storage": c.Keys}
+	if c.Prov != nil && c.Prov.HasAccessKS {
+		m["access"] = c.Prov.AccessKS
+	}
+	if c.Prov != nil && c.Prov.HasHintKS {
+		m["hint"] = c.Prov.HintKS
+	}
+	return m
+}
+
+// stepKind: the verifier a further call goes to.
+func stepKind(c Case, s Step) string {
+	if c.Kind == kProvAcc || c.Kind == kProvHint {
+		switch s.Ver {
+		case "access":
+			return kProvAcc
+		case "hint":
+			return kProvHint
+		}
+	}
+	return c.Kind
+}
+
+func provShape(p *ProvOpts) string {
+	if p == nil {
+		return "fixed"
+	}
+	ks := "ks="
+	switch {
+	case p.HasAccessKS && p.HasHintKS:
+		ks += "both"
+	case p.HasAccessKS:
+		ks += "access"
+	case p.HasHintKS:
+		ks += "hint"
+	default:
+		ks += "none"
+	}
+	return ks
 }
 
 // hintAlg: the provider is configured with exactly one id_token_hint algorithm (the one of its signing key).
@@ -258,6 +353,7 @@ func genCase(t *rapid.T) Case {
 		}
 	case kHintHTTP, kProvAcc, kProvHint:
 		c.Algs = []string{rapid.SampledFrom(allAlgs).Draw(t, "hintalg")}
+		genProvOpts(t, &c)
 	}
 	if c.Kind == kFindKey {
 		return genFindKey(t, c)
@@ -276,7 +372,12 @@ func genCase(t *rapid.T) Case {
 		genPerClient(t, &c, allowed)
 	} else {
 		c.Keys = genKeySet(t, "ks", allowed, false, 4)
-		genPublished(t, &c, allowed)
+		if c.Prov != nil {
+			genProvKeySets(t, &c)
+			c.Tok = genProvToken(t, &c, c.Kind, keySets(c), "")
+		} else {
+			genPublished(t, &c, allowed)
+		}
 	}
 	if c.Kind == kAssert || c.Kind == kAssertKS {
 		// a verifier that allows delegation (custom SubjectCheck): the subject may be another registered client or a user,
@@ -298,6 +399,133 @@ func genCase(t *rapid.T) Case {
 	}
 	genSeq(t, &c, allowed, seqLen)
 	return c
+}
+
+// ---- provider options -------------------------------------------------------------
+
+func genProvAlgs(t *rapid.T, l string) []string {
+	switch rapid.IntRange(0, 5).Draw(t, l+"mode") {
+	case 0, 1:
+		return nil // option not given: library default
+	case 2:
+		return []string{rapid.SampledFrom(allAlgs).Draw(t, l+"one")}
+	case 3:
+		return rapid.SliceOfNDistinct(rapid.SampledFrom(allowListPool), 1, 4, rapid.ID[string]).Draw(t, l+"free")
+	}
+	return append([]string{}, rapid.SampledFrom(algLists[3:]).Draw(t, l+"list")...)
+}
+
+// genProvOpts draws which verification options the provider is built with (the custom key sets follow in genProvKeySets,
+// once the storage's published set is known). 1/6: nil = the fixed option set of vkit.Build.
+func genProvOpts(t *rapid.T, c *Case) {
+	if rapid.IntRange(0, 5).Draw(t, "provfixed") == 0 {
+		return
+	}
+	p := &ProvOpts{}
+	switch rapid.SampledFrom([]string{"none", "access", "access", "hint", "hint", "both", "both"}).Draw(t, "provks") {
+	case "access":
+		p.HasAccessKS = true
+	case "hint":
+		p.HasHintKS = true
+	case "both":
+		p.HasAccessKS, p.HasHintKS = true, true
+	}
+	p.AccessAlgs = genProvAlgs(t, "aalgs")
+	p.HintAlgs = genProvAlgs(t, "halgs")
+	if rapid.IntRange(0, 3).Draw(t, "provsamealgs") == 0 {
+		p.HintAlgs = append([]string{}, p.AccessAlgs...)
+	}
+	p.Rev = rapid.Bool().Draw(t, "provrev")
+	c.Prov = p
+}
+
+// genCustomKeySet: an application key set of pool keys; disjoint from, overlapping with or equal to the storage's published set.
+func genCustomKeySet(t *rapid.T, l string, allowed []string, storage []KeyEntry) []KeyEntry {
+	if len(storage) > 0 && rapid.IntRange(0, 9).Draw(t, l+"same") == 0 {
+		return append([]KeyEntry{}, storage...)
+	}
+	out := genKeySet(t, l, allowed, false, 3)
+	for i, e := range storage {
+		switch rapid.IntRange(0, 7).Draw(t, fmt.Sprintf("%sovl%d", l, i)) {
+		case 0: // the same key under the same kid
+			out = append(out, e)
+		case 1: // the same kid, another key
+			x := e
+			x.Key, x.Alg = otherKeyLike(e.Key, append(append([]KeyEntry{}, storage...), out...)), ""
+			out = append(out, x)
+		case 2: // the same key, another kid
+			x := e
+			x.KID = rapid.SampledFrom(kidPool).Draw(t, fmt.Sprintf("%sovlkid%d", l, i))
+			out = append(out, x)
+		}
+	}
+	if len(out) > 4 {
+		out = out[:4]
+	}
+	return out
+}
+
+func genProvKeySets(t *rapid.T, c *Case) {
+	p := c.Prov
+	kindAllowed := func(kind string) []string {
+		tmp := *c
+		tmp.Kind = kind
+		return allowedAlgs(tmp)
+	}
+	if p.HasAccessKS {
+		p.AccessKS = genCustomKeySet(t, "aks", kindAllowed(kProvAcc), c.Keys)
+	}
+	if p.HasHintKS {
+		p.HintKS = genCustomKeySet(t, "hks", kindAllowed(kProvHint), c.Keys)
+		if p.HasAccessKS && rapid.IntRange(0, 5).Draw(t, "hkssame") == 0 {
+			p.HintKS = append([]KeyEntry{}, p.AccessKS...)
+		}
+	}
+}
+
+// genProvToken signs a token for the provider's verifier of `kind`: mostly related to the key set configured for that
+// verifier (sets[targetOf]), 1/4 to ANOTHER key set the provider knows (the storage's own keys while a custom set is
+// configured for this verifier, the set configured for the other verifier), and now and then with an algorithm that only
+// the other verifier's list allows. sets: the key sets in force by target name.
+func genProvToken(t *rapid.T, c *Case, kind string, sets map[string][]KeyEntry, l string) TokSpec {
+	tmp := *c
+	tmp.Kind, tmp.Seq, tmp.Tok = kind, nil, TokSpec{}
+	allowed := allowedAlgs(tmp)
+	own := targetOf(*c, kind)
+	tgt := own
+	var others []string
+	for _, n := range []string{"storage", "access", "hint"} {
+		if _, ok := sets[n]; ok && n != own {
+			others = append(others, n)
+		}
+	}
+	if len(others) > 0 && rapid.IntRange(0, 3).Draw(t, l+"otherset") == 0 {
+		tgt = rapid.SampledFrom(others).Draw(t, l+"tgt")
+	}
+	tmp.Keys = sets[tgt]
+	genPublished(t, &tmp, allowed)
+	tok := tmp.Tok
+	if tgt != own {
+		tok.Relation = "set-" + tgt + ":" + tok.Relation
+	}
+	if rapid.IntRange(0, 7).Draw(t, l+"otheralg") == 0 {
+		o := tmp
+		o.Kind = kProvAcc
+		if kind == kProvAcc {
+			o.Kind = kProvHint
+		}
+		var only []string
+		for _, a := range vkit.AlgsOf(vkit.Key(tok.Key)) {
+			if contains(allowedAlgs(o), a) && !contains(allowed, a) {
+				only = append(only, a)
+			}
+		}
+		if len(only) > 0 {
+			tok.Alg = rapid.SampledFrom(only).Draw(t, l+"otheralgpick")
+			tok.Relation = "alg-of-other-list:" + tok.Relation
+		}
+	}
+	return tok
 }
 
 // ---- sequences on one instance ----------------------------------------------------
@@ -410,14 +638,37 @@ func sameKeys(a, b []KeyEntry) bool {
 // genSeq appends n further calls on the same instance.
 func genSeq(t *rapid.T, c *Case, allowed []string, n int) {
 	type version struct{ keys, keys2 []KeyEntry }
-	cur := version{c.Keys, c.Keys2}
-	versions := []version{cur}
+	// key sets by target name ("" for the kinds with one key set; storage / access / hint for a provider)
+	orig := keySets(*c)
+	cur := map[string]version{}
+	versions := map[string][]version{}
+	for tg, k := range orig {
+		cur[tg] = version{k, c.Keys2}
+		versions[tg] = []version{cur[tg]}
+	}
 	toks := []TokSpec{c.Tok}
 	for i := 0; i < n; i++ {
 		l := fmt.Sprintf("s%d", i)
 		var st Step
 		last := toks[len(toks)-1]
+		// a provider has two verifiers: a later call may go to the other one (judged against what is configured for THAT one)
+		kind := c.Kind
+		if (c.Kind == kProvAcc || c.Kind == kProvHint) && rapid.IntRange(0, 2).Draw(t, l+"otherver") == 0 {
+			if c.Kind == kProvAcc {
+				kind, st.Ver = kProvHint, "hint"
+			} else {
+				kind, st.Ver = kProvAcc, "access"
+			}
+		}
+		tg := targetOf(*c, kind)
+		kc := *c
+		kc.Kind = kind
+		allowed := allowed
+		if kind != c.Kind {
+			allowed = allowedAlgs(kc)
+		}
 		if rapid.IntRange(0, 9).Draw(t, l+"mutate") < 6 {
+			v := cur[tg]
 			if perClient(c.Kind) {
 				// mostly the registration of the client that presented the last token
 				second := last.Iss == "c2"
@@ -425,25 +676,26 @@ func genSeq(t *rapid.T, c *Case, allowed []string, n int) {
 					second = !second
 				}
 				if second {
-					op, k := genKeyMut(t, l, cur.keys2, c.Keys2, allowed, true, last.Key)
+					op, k := genKeyMut(t, l, v.keys2, c.Keys2, allowed, true, last.Key)
 					if op != "" {
-						st.Mut, cur.keys2 = "c2:"+op, k
+						st.Mut, v.keys2 = "c2:"+op, k
 					}
 				} else {
-					op, k := genKeyMut(t, l, cur.keys, c.Keys, allowed, true, last.Key)
+					op, k := genKeyMut(t, l, v.keys, c.Keys, allowed, true, last.Key)
 					if op != "" {
-						st.Mut, cur.keys = "c1:"+op, k
+						st.Mut, v.keys = "c1:"+op, k
 					}
 				}
 			} else {
-				op, k := genKeyMut(t, l, cur.keys, c.Keys, allowed, false, last.Key)
+				op, k := genKeyMut(t, l, v.keys, orig[tg], allowed, false, last.Key)
 				if op != "" {
-					st.Mut, cur.keys = op, k
+					st.Mut, v.keys = op, k
 				}
 			}
 			if st.Mut != "" {
-				st.Keys, st.Keys2 = cur.keys, cur.keys2
-				versions = append(versions, cur)
+				cur[tg] = v
+				st.Keys, st.Keys2 = v.keys, v.keys2
+				versions[tg] = append(versions[tg], v)
 			}
 		}
 		if rapid.IntRange(0, 9).Draw(t, l+"derive") < 6 {
@@ -452,8 +704,8 @@ func genSeq(t *rapid.T, c *Case, allowed []string, n int) {
 			st.From = j + 1
 			st.Tok = toks[j]
 			st.Tok.Manips = nil
-			tmp := *c
-			tmp.Keys, tmp.Keys2, tmp.Tok = cur.keys, cur.keys2, st.Tok
+			tmp := kc
+			tmp.Keys, tmp.Keys2, tmp.Tok = cur[tg].keys, cur[tg].keys2, st.Tok
 			nm := rapid.SampledFrom([]int{0, 0, 0, 1, 1, 1, 1, 1, 2, 2}).Draw(t, l+"nmanip")
 			for k := 0; k < nm; k++ {
 				if rapid.IntRange(0, 3).Draw(t, fmt.Sprintf("%sgeneral%d", l, k)) == 0 {
@@ -464,17 +716,24 @@ func genSeq(t *rapid.T, c *Case, allowed []string, n int) {
 			}
 		} else {
 			// freshly signed, against the key set in force or (a key retired meanwhile) an earlier one
-			v := cur
+			v := cur[tg]
 			old := false
-			if len(versions) > 1 && rapid.IntRange(0, 2).Draw(t, l+"oldversion") == 0 {
-				vi := rapid.IntRange(0, len(versions)-2).Draw(t, l+"version")
-				v, old = versions[vi], true
+			if len(versions[tg]) > 1 && rapid.IntRange(0, 2).Draw(t, l+"oldversion") == 0 {
+				vi := rapid.IntRange(0, len(versions[tg])-2).Draw(t, l+"version")
+				v, old = versions[tg][vi], true
 			}
-			tmp := *c
+			tmp := kc
 			tmp.Keys, tmp.Keys2, tmp.Tok = v.keys, v.keys2, TokSpec{}
-			if perClient(c.Kind) {
+			switch {
+			case perClient(c.Kind):
 				genPerClient(t, &tmp, allowed)
-			} else {
+			case c.Prov != nil && !old:
+				now := map[string][]KeyEntry{}
+				for n, x := range cur {
+					now[n] = x.keys
+				}
+				tmp.Tok = genProvToken(t, c, kind, now, l)
+			default:
 				genPublished(t, &tmp, allowed)
 			}
 			st.Tok = tmp.Tok
@@ -482,7 +741,7 @@ func genSeq(t *rapid.T, c *Case, allowed []string, n int) {
 			if old {
 				st.Tok.Relation = "old:" + st.Tok.Relation
 			}
-			tmp.Keys, tmp.Keys2, tmp.Tok = cur.keys, cur.keys2, st.Tok
+			tmp.Keys, tmp.Keys2, tmp.Tok = cur[tg].keys, cur[tg].keys2, st.Tok
 			nm := rapid.SampledFrom([]int{0, 0, 0, 0, 1, 1, 2}).Draw(t, l+"nmanip")
 			for k := 0; k < nm; k++ {
 				st.Tok.Manips = append(st.Tok.Manips, genManip(t, tmp, k))
